@@ -4,9 +4,11 @@ from __future__ import annotations
 
 import ast
 
+from ..alpha import Loc, afind, amatch
 from ..cfg import CFG
 from ..const import UNKNOWN, Folder
 from ..flow import Slicer, block_of, flat_guards, parent_map
+from ..labels import LabelFlow
 from ..model import FuncInfo, Model, dotted, norm, walk_no_nested
 from ..report import Run
 
@@ -33,6 +35,49 @@ def linear(expr: ast.AST, folder: Folder, fi: FuncInfo) -> tuple[int, dict[str, 
     return 0, {norm(expr): 1}
 
 
+
+class Roles:
+    """Who is who in a packing loop, found by what the variables hold (never by their names):
+
+    packed  : locals bound to the bytes of ONE route - the result of pack_nlri(...), or the loop variable over a list of
+              such results
+    sizes   : locals bound to len(<packed>)
+    bufs    : locals that accumulate packed routes (`b += p`, `b = b + p`, `b = header + p`) and reach a yield
+    grows   : the accumulating statements (statement, buffer, added expression)
+    """
+
+    def __init__(self, model: Model, fi: FuncInfo) -> None:
+        self.fi = fi
+        self.loc = Loc(model, fi)
+
+        def seed(e: ast.AST) -> tuple[str, ...]:
+            if isinstance(e, ast.Call) and isinstance(e.func, ast.Attribute) and e.func.attr == 'pack_nlri':
+                return ('P',)
+            return ()
+
+        self.lf = LabelFlow(fi.node, seed)
+        self.grows: list[tuple[ast.stmt, str, ast.AST]] = []
+        self.restarts: list[tuple[ast.stmt, str, ast.AST]] = []
+        for n in walk_no_nested(fi.node):
+            if isinstance(n, ast.AugAssign) and isinstance(n.op, ast.Add) and isinstance(n.target, ast.Name) and 'P' in self.lf.of(n.value) and not self._is_len(n.value):
+                self.grows.append((n, n.target.id, n.value))
+            elif isinstance(n, ast.Assign) and isinstance(n.targets[0], ast.Name) and isinstance(n.value, ast.BinOp) and isinstance(n.value.op, ast.Add) and 'P' in self.lf.of(n.value.right) and not self._is_len(n.value.right):
+                if dotted(n.value.left) == n.targets[0].id:
+                    self.grows.append((n, n.targets[0].id, n.value.right))
+                else:
+                    self.restarts.append((n, n.targets[0].id, n.value.right))
+            elif isinstance(n, ast.Assign) and isinstance(n.targets[0], ast.Name) and isinstance(n.value, ast.Call) and dotted(n.value.func) == 'bytes' and n.value.args and isinstance(n.value.args[0], ast.Name) and 'P' in self.lf.of(n.value):
+                self.restarts.append((n, n.targets[0].id, n.value.args[0]))
+        self.bufs = {b for _, b, _ in self.grows}
+        self.packed = {x.id for _, _, v in self.grows + self.restarts for x in ast.walk(v) if isinstance(x, ast.Name)} - self.bufs
+        self.sizes = set(self.loc.from_value(lambda v: isinstance(v, ast.Call) and dotted(v.func) == 'len' and len(v.args) == 1 and isinstance(v.args[0], ast.Name) and v.args[0].id in self.packed))
+
+    def _is_len(self, v: ast.AST) -> bool:
+        # `size += len(p)` style counters are not byte buffers
+        vals = self.loc.values(v.id) if isinstance(v, ast.Name) else [v]
+        return bool(vals) and all((isinstance(x, ast.Call) and dotted(x.func) == 'len') or isinstance(x, ast.Constant) for x in vals)
+
+
 def names_in_concat(expr: ast.AST) -> set[str]:
     return {n.id for n in ast.walk(expr) if isinstance(n, ast.Name)}
 
@@ -50,19 +95,26 @@ def check(model: Model, run: Run) -> None:
         'len(attributes); the MP generators receive room minus every buffer already concatenated into the same message',
         floor=3,
     )
+    ml = Loc(model, msgs)
+    roles = Roles(model, msgs)
+    attr_names = set(ml.from_value(lambda v: isinstance(v, ast.Call) and isinstance(v.func, ast.Attribute) and v.func.attr == 'pack_attribute'))
     budget = None
+    lf = None
     for n in walk_no_nested(msgs.node):
-        if isinstance(n, ast.Assign) and dotted(n.targets[0]) == 'msg_size':
-            budget = n
-    if budget is None:
-        run.cannot('budget assignment (msg_size = ...) not found in messages()')
+        if isinstance(n, ast.Assign) and isinstance(n.targets[0], ast.Name):
+            l = linear(n.value, folder, msgs)
+            if l is not None and l[1].get('negotiated.msg_size') == 1:
+                budget, lf = n, l
+    if budget is None or lf is None:
+        run.cannot('budget assignment (room = negotiated.msg_size - ...) not found in messages()')
         return
-    lf = linear(budget.value, folder, msgs)
-    ok = lf is not None and lf[0] == -23 and lf[1] == {'negotiated.msg_size': 1, 'len(attr)': -1}
-    run.check(ok, msgs.qualname, 'room = %s' % (lf,), msgs.loc(budget), 'RFC 4271 4.3: 19 octets of header, 2 of withdrawn length, 2 of attribute length, the attributes, then the prefixes')
-    # attr is what goes on the wire
-    attr_def = [n for n in walk_no_nested(msgs.node) if isinstance(n, ast.Assign) and dotted(n.targets[0]) == 'attr' and n.lineno < budget.lineno]
-    run.check(bool(attr_def) and all('pack_attribute(negotiated' in norm(n.value) for n in attr_def), msgs.qualname, 'attr = self.attributes.pack_attribute(negotiated, ...)', msgs.loc(), 'the measured attributes must be the ones written')
+    room = budget.targets[0].id
+    lens = [k for k, c in lf[1].items() if k.startswith('len(') and c == -1]
+    ok = lf[0] == -23 and len(lf[1]) == 2 and len(lens) == 1 and lens[0][4:-1] in attr_names
+    run.check(ok, msgs.qualname, 'room = negotiated.msg_size - 23 - len(<packed attributes>)  %s' % (lf,), msgs.loc(budget), 'RFC 4271 4.3: 19 octets of header, 2 of withdrawn length, 2 of attribute length, the attributes, then the prefixes')
+    # the attributes measured are the ones written
+    attr_def = [v for nm in attr_names for v, _, st in ml.defs.get(nm, []) if v is not None and st.lineno < budget.lineno]
+    run.check(bool(attr_def) and all(isinstance(v, ast.Call) and v.args and dotted(v.args[0]) == msgs.node.args.args[1].arg for v in attr_def), msgs.qualname, 'attributes packed for this session (pack_attribute(negotiated, ...))', msgs.loc(), 'the measured attributes must be the ones written')
     # MP generators
     for meth, produced in (('packed_reach_attributes', 'mp_reach'), ('packed_unreach_attributes', 'mp_unreach')):
         calls = [c for c in walk_no_nested(msgs.node) if isinstance(c, ast.Call) and isinstance(c.func, ast.Attribute) and c.func.attr == meth]
@@ -71,11 +123,7 @@ def check(model: Model, run: Run) -> None:
             continue
         c = calls[0]
         barg = c.args[1]
-        if isinstance(barg, ast.Name):
-            # a hoisted local: follow it when it has exactly one definition
-            ds = [n for n in walk_no_nested(msgs.node) if isinstance(n, ast.Assign) and dotted(n.targets[0]) == barg.id]
-            if len(ds) == 1:
-                barg = ds[0].value
+        barg = ml.resolve(barg)  # a hoisted local is followed
         lfb = linear(barg, folder, msgs)
         counted = set()
         if lfb is not None:
@@ -94,8 +142,12 @@ def check(model: Model, run: Run) -> None:
                 if isinstance(y, ast.Yield):
                     ys.append(y)
                     in_msg |= names_in_concat(y.value)
-        in_msg -= {'self', 'UpdateCollection', 'attr', produced}
-        ok = lfb is not None and lfb[1].get('msg_size') == 1 and lfb[0] == 0 and counted == in_msg and bool(ys)
+        produced_v = {dotted(loop.target)} if loop is not None else set()
+        if loop is not None:
+            # the attribute this generator yields, and the local it is kept in until the message goes out
+            produced_v |= {n.targets[0].id for n in walk_no_nested(loop) if isinstance(n, ast.Assign) and isinstance(n.targets[0], ast.Name) and isinstance(n.value, ast.Name) and n.value.id in produced_v}
+        in_msg = {x for x in in_msg if x in ml.defs and x not in attr_names and x not in produced_v}
+        ok = lfb is not None and lfb[1].get(room) == 1 and lfb[0] == 0 and counted == in_msg and bool(ys)
         run.check(ok, msgs.qualname, '%s budget = msg_size - len(%s); message also holds %s' % (meth, '+'.join(sorted(counted)), sorted(in_msg)), msgs.loc(c), 'every buffer written into the same UPDATE (%s) must be subtracted from the room given to %s' % (sorted(in_msg), meth))
 
     # ------------------------------------------------------------------ R2 predictor = writer
@@ -104,88 +156,171 @@ def check(model: Model, run: Run) -> None:
     ah = model.func(MPC + '._attribute_header')
     run.analysed(al)
     run.analysed(ah)
-    ret = [r for r in walk_no_nested(al.node) if isinstance(r, ast.Return)]
-    ok = len(ret) == 1 and norm(ret[0].value) in ('payload_len + (4 if payload_len > 255 else 3)', 'payload_len + (3 if payload_len <= 255 else 4)')
-    run.check(ok, al.qualname, norm(ret[0]) if ret else 'no return', al.loc(), 'attribute = flag, code, 1 or 2 length octets, payload')
-    ifs = [n for n in walk_no_nested(ah.node) if isinstance(n, ast.If)]
-    body_txt = ' '.join(norm(s_) for s_ in ifs[0].body) if ifs else ''
-    ok = len(ifs) == 1 and norm(ifs[0].test) == 'length > 255' and "pack('!H', length)" in body_txt and ('16' in body_txt or '0x10' in body_txt or 'EXTENDED' in body_txt)
-    tail = [r for r in walk_no_nested(ah.node) if isinstance(r, ast.Return)]
-    ok = ok and any(norm(r.value) == 'bytes([flag, code, length])' for r in tail)
-    run.check(ok, ah.qualname, 'extended header iff length > 255', ah.loc(), 'the writer must switch at the same point as _attr_len')
-    mx = folder.resolve_fullname('exabgp.bgp.message.update.attribute.attribute.ATTR_LENGTH_EXTENDED_MAX')
+    def is_length(fi: FuncInfo, name: str) -> bool:
+        """the value being measured: the last parameter, or a local holding len(<last parameter>)"""
+        p = fi.node.args.args[-1].arg
+        if name == p:
+            return True
+        v = Loc(model, fi).single(name)
+        return v is not None and norm(v) == 'len(%s)' % p
+
+    def switch(fi: FuncInfo, e: ast.AST) -> tuple | None:
+        """`n + (4 if n > K else 3)` and its spellings -> (K, short, long) with n the function's length parameter"""
+        for pat, flip in (('V_n + (E_a if V_n > E_k else E_b)', False), ('V_n + (E_a if V_n <= E_k else E_b)', True), ('V_n + E_a if V_n > E_k else V_n + E_b', False), ('V_n + E_a if V_n <= E_k else V_n + E_b', True)):
+            b = amatch(pat, e)
+            if b is not None and is_length(fi, str(b['V_n'])):
+                k = folder.fold(ast.parse(str(b['E_k']), mode='eval').body, fi.module, fi.cls)
+                a = folder.fold(ast.parse(str(b['E_a']), mode='eval').body, fi.module, fi.cls)
+                c = folder.fold(ast.parse(str(b['E_b']), mode='eval').body, fi.module, fi.cls)
+                return (k, a, c) if flip else (k, c, a)
+        return None
+
+    def ret_switch(fi: FuncInfo) -> tuple | None:
+        rets = [r for r in walk_no_nested(fi.node) if isinstance(r, ast.Return) and r.value is not None]
+        if len(rets) == 1:
+            return switch(fi, rets[0].value)
+        # if n <= K: return n + 3 ; return n + 4
+        for st in fi.node.body:
+            if isinstance(st, ast.If) and len(st.body) == 1 and isinstance(st.body[0], ast.Return) and len(rets) == 2:
+                other = [r for r in rets if r is not st.body[0]][0]
+                for pat, flip in (('V_n <= E_k', True), ('V_n > E_k', False)):
+                    b = amatch(pat, st.test)
+                    if b is None or not is_length(fi, str(b['V_n'])):
+                        continue
+                    k = folder.fold(ast.parse(str(b['E_k']), mode='eval').body, fi.module, fi.cls)
+                    inc = []
+                    for r in (st.body[0], other):
+                        bb = amatch('V_n + E_c', r.value, {'V_n': b['V_n']})
+                        inc.append(folder.fold(ast.parse(str(bb['E_c']), mode='eval').body, fi.module, fi.cls) if bb else None)
+                    return (k, inc[0], inc[1]) if flip else (k, inc[1], inc[0])
+        return None
+
+    sw = ret_switch(al)
+    run.check(sw == (255, 3, 4), al.qualname, 'predicted size = payload + 3 up to 255, + 4 above (%s)' % (sw,), al.loc(), 'attribute = flag, code, 1 or 2 length octets, payload')
+
+    def writer_switch(fi: FuncInfo) -> tuple | None:
+        """the writer: (threshold K, two-octet length used above K, one-octet length used up to K)"""
+        p = fi.node.args.args[-1].arg if fi.name == '_attribute_header' else None
+        for n in walk_no_nested(fi.node):
+            tests = []
+            if isinstance(n, ast.If):
+                tests = [(n.test, n.body, n.orelse)]
+            elif isinstance(n, ast.IfExp):
+                tests = [(n.test, [n.body], [n.orelse])]
+            for t, yes, no in tests:
+                for pat, flip in (('V_n > E_k', False), ('V_n <= E_k', True)):
+                    b = amatch(pat, t, ({'V_n': p} if p else None))
+                    if b is None:
+                        continue
+                    k = folder.fold(ast.parse(str(b['E_k']), mode='eval').body, fi.module, fi.cls)
+                    big, small = (no, yes) if flip else (yes, no)
+                    two = any("pack('!H', %s)" % b['V_n'] in norm(x) for x in big)
+                    rest = small if small else [r for r in walk_no_nested(fi.node) if isinstance(r, ast.Return) and all(r is not x and not any(r is y for y in ast.walk(x)) for x in big)]
+                    one = any(('bytes([%s])' % b['V_n']) in norm(x) or (', %s])' % b['V_n']) in norm(x) for x in rest)
+                    return (k, two, one)
+        return None
+
+    ws = writer_switch(ah)
+    run.check(ws == (255, True, True), ah.qualname, 'extended header iff length > 255 (%s)' % (ws,), ah.loc(), 'the writer must switch at the same point as _attr_len')
     at = model.func(ATTR + '._attribute')
     ln = model.func(ATTR + '._len')
     run.analysed(at)
     run.analysed(ln)
-    ifs = [n for n in walk_no_nested(at.node) if isinstance(n, ast.If) and 'ATTR_LENGTH_EXTENDED_MAX' in norm(n.test)]
-    ok = mx == 255 and len(ifs) == 1 and norm(ifs[0].test) == 'length > ATTR_LENGTH_EXTENDED_MAX' and 'EXTENDED_LENGTH' in norm(ifs[0].body[0])
-    ok = ok and "pack('!H', length)" in norm(at.node) and 'bytes([length])' in norm(at.node)
-    run.check(ok, at.qualname, 'extended length iff length > %s' % mx, at.loc(), 'RFC 4271 4.3: one length octet up to 255, two with the Extended Length bit')
-    ret = [r for r in walk_no_nested(ln.node) if isinstance(r, ast.Return)]
-    ok = len(ret) == 1 and norm(ret[0].value) in ('length + 3 if length <= ATTR_LENGTH_EXTENDED_MAX else length + 4', 'length + 4 if length > ATTR_LENGTH_EXTENDED_MAX else length + 3')
-    run.check(ok, ln.qualname, norm(ret[0]) if ret else 'no return', ln.loc(), 'Attribute._len must predict what _attribute writes')
+    wa = writer_switch(at)
+    ext_flag = any(isinstance(x, ast.Attribute) and x.attr == 'EXTENDED_LENGTH' for x in ast.walk(at.node))
+    if wa is not None and wa[1:] == (False, False):
+        # two steps: `if n > K: flag |= EXTENDED_LENGTH` then `if flag & EXTENDED_LENGTH: two octets else one octet`
+        sets = [n for n in walk_no_nested(at.node) if isinstance(n, ast.If) and any(isinstance(x, ast.AugAssign) and isinstance(x.op, ast.BitOr) and 'EXTENDED_LENGTH' in norm(x.value) for x in n.body) and amatch('V_n > E_k', n.test) is not None]
+        uses = [n for n in walk_no_nested(at.node) if isinstance(n, (ast.If, ast.IfExp)) and isinstance(n.test, ast.BinOp) and isinstance(n.test.op, ast.BitAnd) and 'EXTENDED_LENGTH' in norm(n.test)]
+        if len(sets) == 1 and len(uses) == 1:
+            nm = str(amatch('V_n > E_k', sets[0].test)['V_n'])  # type: ignore[index]
+            u = uses[0]
+            yes = u.body if isinstance(u, ast.If) else [u.body]
+            no = u.orelse if isinstance(u, ast.If) else [u.orelse]
+            wa = (wa[0], any("pack('!H', %s)" % nm in norm(x) for x in yes), any('bytes([%s])' % nm in norm(x) for x in no))
+    run.check(wa == (255, True, True) and ext_flag, at.qualname, 'extended length iff length > 255 (%s)' % (wa,), at.loc(), 'RFC 4271 4.3: one length octet up to 255, two with the Extended Length bit')
+    sl_ = ret_switch(ln)
+    run.check(sl_ == (255, 3, 4), ln.qualname, 'predicted size = length + 3 up to 255, + 4 above (%s)' % (sl_,), ln.loc(), 'Attribute._len must predict what _attribute writes')
     pf = model.func(UC + '.prefix')
     run.check("pack('!H', len(data)) + data" in norm(pf.node), pf.qualname, '2-byte length prefix', pf.loc(), 'withdrawn and attribute sections carry a 2-octet length')
 
     # ------------------------------------------------------------------ R3 guarded growth
     run.rule('C09.R3', 'a buffer that flows into a yielded message grows only in the satisfied branch of a `current + new <= room` comparison (or the failing branch of `> maximum`)', floor=4)
-    _r3_growth(model, run, msgs, 'msg_size', ['announced', 'withdraws'])
+    _r3_growth(model, run, msgs, room, roles)
     for nm in ('packed_reach_attributes', 'packed_unreach_attributes'):
         f = model.func(MPC + '.' + nm)
         run.analysed(f)
-        _r3_growth(model, run, f, 'maximum', ['payload'])
+        _r3_growth(model, run, f, f.node.args.args[2].arg, Roles(model, f))
 
     # ------------------------------------------------------------------ R4 nothing dropped at a split
     run.rule('C09.R4', 'when a message is emitted because the next prefix does not fit, that prefix starts the next buffer (announced = bytes(packed) / payload = header + packed_nlri): nothing is dropped at a split', floor=4)
-    _r4_split(model, run, msgs, {'announced': 'packed', 'withdraws': 'packed'})
+    _r4_split(model, run, msgs, roles)
     for nm in ('packed_reach_attributes', 'packed_unreach_attributes'):
-        _r4_split(model, run, model.func(MPC + '.' + nm), {'payload': 'packed_nlri'})
+        f = model.func(MPC + '.' + nm)
+        _r4_split(model, run, f, Roles(model, f))
 
     # ------------------------------------------------------------------ R5 no room => no message
     run.rule('C09.R5', 'when the attributes leave no room nothing is yielded: the negative/zero-room tests return before the first yield, and a first prefix that does not fit returns (or raises) instead of yielding', floor=4)
     cfg = CFG(msgs.node)
     ys = sorted((y for y in walk_no_nested(msgs.node) if isinstance(y, ast.Yield)), key=lambda y: y.lineno)
     after_budget = [y for y in ys if y.lineno > budget.lineno]
-    tests = [n for n in msgs.node.body if isinstance(n, ast.If) and n.lineno > budget.lineno and 'msg_size' in norm(n.test) and after_budget and n.lineno < after_budget[0].lineno]
-    neg = any(norm(t.test) in ('msg_size < 0', 'msg_size <= 0') and isinstance(t.body[-1], ast.Return) for t in tests)
-    zero = any(('msg_size == 0' in norm(t.test) or norm(t.test) == 'msg_size <= 0') and isinstance(t.body[-1], ast.Return) for t in tests)
-    run.check(neg, msgs.qualname, 'negative room returns before any message', msgs.loc(tests[0]) if tests else msgs.loc(), 'attributes larger than the message leave nothing to send')
-    run.check(zero, msgs.qualname, 'zero room returns before any message', msgs.loc(tests[0]) if tests else msgs.loc(), 'no prefix can fit')
-    # first prefix does not fit
-    firsts = [n for n in walk_no_nested(msgs.node) if isinstance(n, ast.If) and norm(n.test) in ('not withdraws and (not announced)', 'not withdraws and not announced', 'not (withdraws or announced)')]
+    tests = [n for n in msgs.node.body if isinstance(n, ast.If) and n.lineno > budget.lineno and room in ml.reads(n.test) and after_budget and n.lineno < after_budget[0].lineno and isinstance(n.body[-1], ast.Return)]
+    covered = set()
+    for t in tests:
+        for c in (t.test.values if isinstance(t.test, ast.BoolOp) and isinstance(t.test.op, ast.And) else [t.test]):
+            for pat, what in (('V_r < 0', {'neg'}), ('V_r <= 0', {'neg', 'zero'}), ('V_r == 0', {'zero'}), ('V_r < 1', {'neg', 'zero'})):
+                if amatch(pat, c, {'V_r': room}) is not None:
+                    covered |= what
+    run.check('neg' in covered, msgs.qualname, 'negative room returns before any message', msgs.loc(tests[0]) if tests else msgs.loc(), 'attributes larger than the message leave nothing to send')
+    run.check('zero' in covered, msgs.qualname, 'zero room returns before any message', msgs.loc(tests[0]) if tests else msgs.loc(), 'no prefix can fit')
+    # first prefix does not fit: inside each packing loop, an emptiness test on every buffer returns before the split yield
+    firsts = []
+    for n in walk_no_nested(msgs.node):
+        if isinstance(n, ast.If):
+            neg_names = set()
+            t = n.test
+            parts = t.values if isinstance(t, ast.BoolOp) and isinstance(t.op, ast.And) else [t]
+            for c in parts:
+                if isinstance(c, ast.UnaryOp) and isinstance(c.op, ast.Not):
+                    if isinstance(c.operand, ast.Name):
+                        neg_names.add(c.operand.id)
+                    elif isinstance(c.operand, ast.BoolOp) and isinstance(c.operand.op, ast.Or):
+                        neg_names |= {x.id for x in c.operand.values if isinstance(x, ast.Name)}
+            if neg_names and neg_names == roles.bufs:
+                firsts.append(n)
     run.check(len(firsts) >= 2 and all(isinstance(f.body[-1], ast.Return) for f in firsts), msgs.qualname, 'a first prefix that does not fit returns without a message (%d sites)' % len(firsts), msgs.loc(firsts[0]) if firsts else msgs.loc(), 'an oversized UPDATE must not be produced')
     for nm in ('packed_reach_attributes', 'packed_unreach_attributes'):
         f = model.func(MPC + '.' + nm)
-        g = [n for n in walk_no_nested(f.node) if isinstance(n, ast.If) and norm(n.test) == 'len(payload) == header_length']
+        fr = Roles(model, f)
+        g = []
+        for n in walk_no_nested(f.node):
+            if isinstance(n, ast.If):
+                b = amatch('len(V_p) == E_h', n.test)
+                if b is not None and b['V_p'] in fr.bufs:
+                    g.append(n)
         run.check(len(g) == 1 and isinstance(g[0].body[-1], ast.Raise), f.qualname, 'a first NLRI that does not fit raises', f.loc(g[0]) if g else f.loc(), 'an oversized attribute must not be produced')
 
 
-def _r3_growth(model: Model, run: Run, fi: FuncInfo, room: str, bufs: list[str]) -> None:
-    for n in walk_no_nested(fi.node):
-        grow = None
-        if isinstance(n, ast.AugAssign) and isinstance(n.op, ast.Add) and isinstance(n.target, ast.Name) and n.target.id in bufs:
-            grow = n
-        if isinstance(n, ast.Assign) and isinstance(n.targets[0], ast.Name) and n.targets[0].id in bufs and isinstance(n.value, ast.BinOp) and isinstance(n.value.op, ast.Add) and dotted(n.value.left) == n.targets[0].id:
-            grow = n
-        if grow is None:
-            continue
+def _r3_growth(model: Model, run: Run, fi: FuncInfo, room: str, roles: Roles) -> None:
+    if not roles.grows:
+        run.cannot('%s: no buffer accumulating packed routes found' % fi.qualname)
+    new_names = roles.packed | roles.sizes
+    for grow, buf, added in roles.grows:
         g = flat_guards(fi.node, grow)
         ok = False
         for t, pol in g:
             if isinstance(t, ast.Compare) and len(t.ops) == 1:
                 rhs = dotted(t.comparators[0]) or ''
                 lhs_names = {x.id for x in ast.walk(t.left) if isinstance(x, ast.Name)}
-                new = {'packed_size', 'packed', 'packed_nlri'} & lhs_names
-                if rhs == room and new:
+                if rhs == room and (new_names & lhs_names):
                     if isinstance(t.ops[0], ast.LtE) and pol:
                         ok = True
                     if isinstance(t.ops[0], ast.Gt) and not pol:
                         ok = True
-        run.check(ok, fi.qualname, '%s guarded by the room test' % norm(grow), fi.loc(grow), 'the buffer must only grow when current + new fits in %s; guards: %s' % (room, [(norm(t), p) for t, p in g]))
+        run.check(ok, fi.qualname, 'buffer growth `%s` guarded by the room test' % norm(grow).replace(buf, '<buffer>'), fi.loc(grow), 'the buffer must only grow when current + new fits in the room; guards: %s' % ([(norm(t), p) for t, p in g],))
 
 
-def _r4_split(model: Model, run: Run, fi: FuncInfo, carry: dict[str, str]) -> None:
+def _r4_split(model: Model, run: Run, fi: FuncInfo, roles: Roles) -> None:
     pm = parent_map(fi.node)
     n_sites = 0
     for loop in walk_no_nested(fi.node):
@@ -194,9 +329,9 @@ def _r4_split(model: Model, run: Run, fi: FuncInfo, carry: dict[str, str]) -> No
         tgt = dotted(loop.target) or ''
         cur = None
         for st in loop.body:
-            if isinstance(st, ast.Assign) and isinstance(st.targets[0], ast.Name) and st.targets[0].id in carry.values():
+            if isinstance(st, ast.Assign) and isinstance(st.targets[0], ast.Name) and st.targets[0].id in roles.packed:
                 cur = st.targets[0].id
-        if tgt in carry.values():
+        if tgt in roles.packed:
             cur = tgt
         if cur is None:
             continue
@@ -223,11 +358,11 @@ def _r4_split(model: Model, run: Run, fi: FuncInfo, carry: dict[str, str]) -> No
                 if isinstance(node, ast.If):
                     continue
             n_sites += 1
-            restart = [s for s in rest if isinstance(s, ast.Assign) and isinstance(s.targets[0], ast.Name) and s.targets[0].id in carry and cur in {x.id for x in ast.walk(s.value) if isinstance(x, ast.Name)}]
+            restart = [s for s in rest if isinstance(s, ast.Assign) and isinstance(s.targets[0], ast.Name) and s.targets[0].id in roles.bufs and cur in {x.id for x in ast.walk(s.value) if isinstance(x, ast.Name)}]
             run.check(
                 bool(restart),
                 fi.qualname,
-                'after the split yield at line %d the pending %s starts the next buffer' % (y.lineno, cur),
+                'after the split yield the pending route starts the next buffer',
                 fi.loc(ystmt),
                 'the prefix that triggered the split (%s) is not carried into the next message: it is lost' % cur,
             )
